@@ -1,1 +1,50 @@
-(* placeholder *)
+(* C15 — Files and directories written as schema blobs read back exactly. *)
+From Coq Require Import List NArith Bool Arith.
+From PK.Generated Require Import Consts.
+From PK.Model Require Import C15.
+From PK.Proofs Require C15.
+Import ListNotations.
+
+(* reading any range of any well-formed file/bytes part tree (offsets and sub-ranges into blobs, holes, nested
+   bytes blobs to any depth) returns exactly the bytes doc/schema/bytes.md denotes *)
+Theorem C15_read_at : forall ps off want, wf_parts ps = true ->
+  read_at ps off want = firstn want (skipn off (denote ps)).
+Proof. exact C15.read_at_exact. Qed.
+Print Assumptions C15_read_at.
+
+(* the chunker, for every content length, every rolling-checksum behaviour and every moment at which the source
+   reports EOF: the chunks tile the content in order, none is empty, none exceeds the chunk size limit *)
+Theorem C15_chunks_partition : forall maxb firstc small o, (1 <= maxb)%N -> forall total,
+  C15.contig maxb (chunks maxb firstc small o total) 0%N total.
+Proof. exact C15.chunks_partition. Qed.
+Print Assumptions C15_chunks_partition.
+
+(* the span tree (and hence the parts of the file schema, children before their span's own chunk) lists the chunks
+   in file order *)
+Theorem C15_tree_flatten : forall cuts, flatten_stack (build_tree cuts) = map (fun c => (c_from c, c_to c)) cuts.
+Proof. exact C15.tree_flatten. Qed.
+Print Assumptions C15_tree_flatten.
+
+(* a directory listing spread over sub static-sets lists exactly the original members, in order ... *)
+Theorem C15_static_set : forall m, 3 <= m -> forall fuel members, length members <= fuel ->
+  set_members (split_set fuel m members) = members.
+Proof. exact C15.split_set_members. Qed.
+Print Assumptions C15_static_set.
+
+(* ... and no emitted set has more than M entries *)
+Theorem C15_static_set_width : forall m, 3 <= m -> forall fuel members, length members <= fuel -> 0 < fuel ->
+  max_width (split_set fuel m members) <= m.
+Proof. exact C15.split_set_width. Qed.
+Print Assumptions C15_static_set_width.
+
+(* the generated constants meet the hypotheses used above *)
+Theorem C15_constants : (1 <= chunk_max_blob_size)%N /\ 3 <= N.to_nat max_static_set_members.
+Proof. split; [vm_compute; discriminate|]. apply Nat.leb_le. vm_compute. reflexivity. Qed.
+Print Assumptions C15_constants.
+
+Example C15_nonvacuous :
+  let ps := [Sub 3 1 [Blob 2 1 [9; 8; 7]; Hole 1; Blob 2 0 [5; 6]]%N; Blob 1 2 [1; 2; 3]%N] in
+  wf_parts ps = true /\ denote ps = [7; 0; 5; 3]%N /\ read_at ps 1 2 = [0; 5]%N /\
+  set_members (split_set 20 3 (map N.of_nat (seq 0 14))) = map N.of_nat (seq 0 14).
+Proof. vm_compute. repeat split; reflexivity. Qed.
+Print Assumptions C15_nonvacuous.
